@@ -28,11 +28,11 @@ def dump_mir(kind="lib"):
     if kind == "lib":
         subprocess.run(["touch", os.path.join(REPO, "src", "lib.rs")], check=True)
         cmd = ["cargo", "+nightly", "rustc", "--offline", "--lib", "--no-default-features", "--", "-Zunpretty=mir",
-               "-C", "overflow-checks=on", "-A", "warnings"]
+               "-C", "overflow-checks=on", "-C", "debug-assertions=off", "-A", "warnings"]
     else:
         subprocess.run(["touch", os.path.join(REPO, "src", "bin", "main.rs")], check=True)
         cmd = ["cargo", "+nightly", "rustc", "--offline", "--bin", "scrut", "--no-default-features", "--",
-               "-Zunpretty=mir", "-C", "overflow-checks=on", "-A", "warnings"]
+               "-Zunpretty=mir", "-C", "overflow-checks=on", "-C", "debug-assertions=off", "-A", "warnings"]
     r = subprocess.run(cmd, cwd=REPO, stdout=subprocess.PIPE, stderr=subprocess.PIPE, text=True,
                        env=common.env_offline({"CARGO_TARGET_DIR": target, "RUSTFLAGS": "--cfg %s" % common.GUARD}))
     if r.returncode != 0 or len(r.stdout) < 1000:
@@ -154,20 +154,66 @@ class HarnessResult:
         self.models_used = {}
 
 
-def run_harness(prog, h, max_witnesses=6):
+_PAR = {}
+
+
+def _worker(chunk):
+    prog, h, mw = _PAR["prog"], _PAR["h"], _PAR["mw"]
+    return _run_inputs(prog, h, [h.inputs[i] for i in chunk], mw)
+
+
+def run_harness(prog, h, max_witnesses=60, jobs=None):
+    """explore every input shape of the harness (in parallel when there are many)"""
+    t0 = time.time()
+    jobs = jobs or int(os.environ.get("VERIF_JOBS", "16"))
+    n = len(h.inputs)
+    if n < 12 or jobs <= 1:
+        res = _run_inputs(prog, h, h.inputs, max_witnesses)
+        res.wall_s = time.time() - t0
+        return res
+    import multiprocessing as mp
+    _PAR.update(prog=prog, h=h, mw=max_witnesses)
+    idx = list(range(n))
+    # later shapes are usually the larger ones: interleave so that chunks are balanced
+    nchunks = min(n, jobs * 4)
+    chunks = [idx[k::nchunks] for k in range(nchunks)]
+    ctx = mp.get_context("fork")
+    with ctx.Pool(jobs) as pool:
+        parts = pool.map(_worker, chunks, chunksize=1)
+    res = HarnessResult(h.name)
+    seen = set()
+    for p in parts:
+        res.paths += p.paths
+        res.queries += p.queries
+        res.solver_s += p.solver_s
+        res.shapes += p.shapes
+        res.panic_paths += p.panic_paths
+        res.unsupported += p.unsupported
+        for w in p.witnesses:
+            res.witnesses.append(w)
+        if len(res.samples) < 3:
+            res.samples += p.samples
+        for k, v in p.models_used.items():
+            res.models_used[k] = res.models_used.get(k, 0) + v
+    res.unsupported = res.unsupported[:8]
+    res.witnesses = res.witnesses[:max_witnesses * 2]
+    res.wall_s = time.time() - t0
+    return res
+
+
+def _run_inputs(prog, h, inputs, max_witnesses=60):
     res = HarnessResult(h.name)
     t0 = time.time()
     models = Models()
     try:
-        fname = prog.find(h.func)
+        fname = h.func if callable(h.func) else prog.find(h.func)
     except Unsupported as e:
         res.unsupported.append(str(e))
         return res
     sig_seen = set()
-    for label, setup in h.inputs:
+    for label, setup in inputs:
         ex = Executor(prog, models, max_paths=h.max_paths)
         res.shapes += 1
-        holder = {}
 
         def setup2(ctx, setup=setup):
             args = setup(ctx)
@@ -188,7 +234,7 @@ def run_harness(prog, h, max_witnesses=6):
                 res.panic_paths += 1
             args = r.ctx.notes.get("args")
             try:
-                good = h.post(r.ctx, r.ctx.notes["args"], r.kind, r.value if r.kind == "return" else r.info)
+                good = h.post(r.ctx, args, r.kind, r.value if r.kind == "return" else r.info)
             except Unsupported as e:
                 if len(res.unsupported) < 5:
                     res.unsupported.append("%s [%s] postcondition: %s" % (h.name, label, e))
@@ -226,10 +272,9 @@ def run_harness(prog, h, max_witnesses=6):
             if model is not None and len(res.witnesses) < max_witnesses:
                 w = {"shape": label, "args": [to_py(a, model) for a in args], "kind": r.kind,
                      "value": to_py(r.value, model) if r.kind == "return" else r.info}
-                key = h.sig(w["args"], w["kind"], w["value"]) if h.sig else (r.kind, label)
+                key = h.sig(w["args"], w["kind"], w["value"]) if h.sig else (r.kind, label, len(res.witnesses) % 3)
                 if key not in sig_seen:
                     sig_seen.add(key)
-                    w["signature"] = key if isinstance(key, str) else None
                     res.witnesses.append(w)
         res.solver_s += ex.stats["solver_s"]
         res.queries += ex.stats["feasibility_checks"]
@@ -267,7 +312,7 @@ class NativeEval:
 def run_concrete(prog, fname, args):
     """interpret one call on fully concrete arguments → (kind, value_py)"""
     ex = Executor(prog, Models())
-    rs = ex.explore(prog.find(fname), lambda ctx: list(args))
+    rs = ex.explore(fname if callable(fname) else prog.find(fname), lambda ctx: list(args))
     if len(rs) != 1:
         return "unsupported", "concrete run produced %d paths" % len(rs)
     r = rs[0]
@@ -315,7 +360,8 @@ def process(rep, prog, nat, h, tier, validate_inputs=(), to_native_args=None):
         status = "undecided" if not confirmed else status
         for u in res.unsupported[:3]:
             rep.undecided.append(u)
-    rep.subclaim(name=h.name, engine="E2 (MIR symbolic execution + z3)", function=h.func, bound=h.bound,
+    rep.subclaim(name=h.name, engine="E2 (MIR symbolic execution + z3)",
+                 function=(h.func.__doc__ or h.func.__name__) if callable(h.func) else h.func, bound=h.bound,
                  what=h.describe, result=status, shapes=res.shapes, paths=res.paths, panic_paths=res.panic_paths,
                  queries=res.queries, solver_s=round(res.solver_s, 2), wall_s=round(res.wall_s, 2),
                  concrete_validation={"inputs": checked, "mismatches": mism},
